@@ -399,24 +399,6 @@ module Coq_Pos =
   | N0 -> N0
   | Npos p -> Npos (XO p)
 
-  (** val coq_lor : positive -> positive -> positive **)
-
-  let rec coq_lor p q =
-    match p with
-    | XI p0 ->
-      (match q with
-       | XI q0 -> XI (coq_lor p0 q0)
-       | XO q0 -> XI (coq_lor p0 q0)
-       | XH -> p)
-    | XO p0 ->
-      (match q with
-       | XI q0 -> XI (coq_lor p0 q0)
-       | XO q0 -> XO (coq_lor p0 q0)
-       | XH -> XI p0)
-    | XH -> (match q with
-             | XO q0 -> XI q0
-             | _ -> q)
-
   (** val coq_land : positive -> positive -> n **)
 
   let rec coq_land p q =
@@ -511,17 +493,6 @@ module N =
                   | N0 -> Gt
                   | Npos m' -> Coq_Pos.compare n' m')
 
-  (** val eqb : n -> n -> bool **)
-
-  let eqb n0 m =
-    match n0 with
-    | N0 -> (match m with
-             | N0 -> true
-             | Npos _ -> false)
-    | Npos p -> (match m with
-                 | N0 -> false
-                 | Npos q -> Coq_Pos.eqb p q)
-
   (** val leb : n -> n -> bool **)
 
   let leb x y =
@@ -604,15 +575,6 @@ module N =
 
   let modulo a b =
     snd (div_eucl a b)
-
-  (** val coq_lor : n -> n -> n **)
-
-  let coq_lor n0 m =
-    match n0 with
-    | N0 -> m
-    | Npos p -> (match m with
-                 | N0 -> n0
-                 | Npos q -> Npos (Coq_Pos.coq_lor p q))
 
   (** val coq_land : n -> n -> n **)
 
@@ -989,73 +951,6 @@ let sx_err msg =
 let sx_nat n0 =
   SN (N.of_nat n0)
 
-(** val tab64_N : n list **)
-
-let tab64_N =
-  (Npos (XI (XI (XI (XI (XI XH)))))) :: (N0 :: ((Npos (XO (XI (XO (XI (XI
-    XH)))))) :: ((Npos XH) :: ((Npos (XI (XI (XO (XI (XI XH)))))) :: ((Npos
-    (XI (XI (XI (XI (XO XH)))))) :: ((Npos (XI (XO (XI (XO (XI
-    XH)))))) :: ((Npos (XO XH)) :: ((Npos (XO (XO (XI (XI (XI
-    XH)))))) :: ((Npos (XI (XI (XI (XO (XO XH)))))) :: ((Npos (XO (XO (XO (XO
-    (XI XH)))))) :: ((Npos (XI (XI (XO (XI XH))))) :: ((Npos (XO (XI (XI (XO
-    (XI XH)))))) :: ((Npos (XI (XO (XO (XO (XO XH)))))) :: ((Npos (XO (XI (XO
-    (XI (XO XH)))))) :: ((Npos (XI XH)) :: ((Npos (XI (XO (XI (XI (XI
-    XH)))))) :: ((Npos (XI (XI (XO (XO (XI XH)))))) :: ((Npos (XI (XO (XI (XO
-    (XO XH)))))) :: ((Npos (XO (XO (XO (XI (XO XH)))))) :: ((Npos (XI (XO (XO
-    (XO (XI XH)))))) :: ((Npos (XO (XI (XO (XO XH))))) :: ((Npos (XO (XO (XI
-    (XI XH))))) :: ((Npos (XO (XO (XI (XO XH))))) :: ((Npos (XI (XI (XI (XO
-    (XI XH)))))) :: ((Npos (XO (XI (XI (XI XH))))) :: ((Npos (XO (XI (XO (XO
-    (XO XH)))))) :: ((Npos (XI (XI (XO XH)))) :: ((Npos (XI (XI (XO (XI (XO
-    XH)))))) :: ((Npos (XO (XI (XI XH)))) :: ((Npos (XO (XI (XI (XO
-    XH))))) :: ((Npos (XO (XO XH))) :: ((Npos (XO (XI (XI (XI (XI
-    XH)))))) :: ((Npos (XI (XO (XO (XI (XI XH)))))) :: ((Npos (XO (XI (XI (XI
-    (XO XH)))))) :: ((Npos (XO (XO (XI (XO (XI XH)))))) :: ((Npos (XO (XI (XI
-    (XO (XO XH)))))) :: ((Npos (XO (XI (XO (XI XH))))) :: ((Npos (XO (XO (XO
-    (XO (XO XH)))))) :: ((Npos (XI (XO (XO (XI (XO XH)))))) :: ((Npos (XO (XI
-    (XO (XO (XI XH)))))) :: ((Npos (XO (XO (XI (XO (XO XH)))))) :: ((Npos (XI
-    (XO (XO (XO XH))))) :: ((Npos (XI (XI (XO (XO XH))))) :: ((Npos (XI (XO
-    (XI (XI XH))))) :: ((Npos (XO (XI (XO XH)))) :: ((Npos (XI (XO (XI
-    XH)))) :: ((Npos (XI (XO (XI (XO XH))))) :: ((Npos (XO (XO (XO (XI (XI
-    XH)))))) :: ((Npos (XI (XO (XI (XI (XO XH)))))) :: ((Npos (XI (XO (XO (XI
-    XH))))) :: ((Npos (XI (XI (XI (XI XH))))) :: ((Npos (XI (XI (XO (XO (XO
-    XH)))))) :: ((Npos (XO (XO (XO (XO XH))))) :: ((Npos (XI (XO (XO
-    XH)))) :: ((Npos (XO (XO (XI XH)))) :: ((Npos (XO (XO (XI (XI (XO
-    XH)))))) :: ((Npos (XO (XO (XO (XI XH))))) :: ((Npos (XI (XI (XI
-    XH)))) :: ((Npos (XO (XO (XO XH)))) :: ((Npos (XI (XI (XI (XO
-    XH))))) :: ((Npos (XI (XI XH))) :: ((Npos (XO (XI XH))) :: ((Npos (XI (XO
-    XH))) :: [])))))))))))))))))))))))))))))))))))))))))))))))))))))))))))))))
-
-(** val tab64 : nat list **)
-
-let tab64 =
-  map N.to_nat tab64_N
-
-(** val suffix_to_bits : (n * bool list) list **)
-
-let suffix_to_bits =
-  ((Npos (XI (XO (XO (XO (XI XH)))))),
-    (false :: (false :: (false :: [])))) :: (((Npos (XO (XI (XO (XO (XI
-    XH)))))), (false :: (false :: []))) :: (((Npos (XI (XI (XO (XO (XI
-    XH)))))), (false :: (false :: (true :: [])))) :: (((Npos (XO (XO (XI (XO
-    (XI XH)))))), (false :: [])) :: (((Npos (XI (XO (XI (XO (XI XH)))))),
-    (false :: (true :: (false :: [])))) :: (((Npos (XO (XI (XI (XO (XI
-    XH)))))), (false :: (true :: []))) :: (((Npos (XI (XI (XI (XO (XI
-    XH)))))), (false :: (true :: (true :: [])))) :: (((Npos (XI (XO (XO (XI
-    (XI XH)))))), (true :: (false :: (false :: [])))) :: (((Npos (XI (XO (XO
-    (XO (XO (XO XH))))))), (true :: (false :: []))) :: (((Npos (XO (XI (XO
-    (XO (XO (XO XH))))))), (true :: (false :: (true :: [])))) :: (((Npos (XI
-    (XI (XO (XO (XO (XO XH))))))), (true :: [])) :: (((Npos (XO (XO (XI (XO
-    (XO (XO XH))))))), (true :: (true :: (false :: [])))) :: (((Npos (XI (XO
-    (XI (XO (XO (XO XH))))))), (true :: (true :: []))) :: (((Npos (XO (XI (XI
-    (XO (XO (XO XH))))))), (true :: (true :: (true :: [])))) :: (((Npos (XI
-    (XO (XO (XO (XO (XI XH))))))), (true :: (false :: []))) :: (((Npos (XO
-    (XI (XO (XO (XO (XI XH))))))),
-    (true :: (false :: (true :: [])))) :: (((Npos (XI (XI (XO (XO (XO (XI
-    XH))))))), (true :: [])) :: (((Npos (XO (XO (XI (XO (XO (XI XH))))))),
-    (true :: (true :: (false :: [])))) :: (((Npos (XI (XO (XI (XO (XO (XI
-    XH))))))), (true :: (true :: []))) :: (((Npos (XO (XI (XI (XO (XO (XI
-    XH))))))), (true :: (true :: (true :: [])))) :: [])))))))))))))))))))
-
 type 'a res =
 | Ok of 'a
 | Err of n
@@ -1296,43 +1191,6 @@ let write_unary n0 s =
   (match r0 with
    | Ok _ -> write_bit false s'
    | _ -> first)
-
-(** val smear : n -> n **)
-
-let smear v =
-  let v0 = N.coq_lor v (N.shiftr v (Npos XH)) in
-  let v1 = N.coq_lor v0 (N.shiftr v0 (Npos (XO XH))) in
-  let v2 = N.coq_lor v1 (N.shiftr v1 (Npos (XO (XO XH)))) in
-  let v3 = N.coq_lor v2 (N.shiftr v2 (Npos (XO (XO (XO XH))))) in
-  let v4 = N.coq_lor v3 (N.shiftr v3 (Npos (XO (XO (XO (XO XH)))))) in
-  N.coq_lor v4 (N.shiftr v4 (Npos (XO (XO (XO (XO (XO XH)))))))
-
-(** val debruijn : n **)
-
-let debruijn =
-  Npos (XO (XI (XO (XO (XO (XO (XI (XI (XO (XO (XO (XI (XO (XI (XO (XO (XO
-    (XI (XI (XI (XO (XO (XI (XO (XO (XI (XO (XI (XI (XO (XO (XI (XI (XO (XI
-    (XO (XO (XI (XI (XI (XI (XO (XI (XO (XI (XO (XI (XI (XI (XO (XI (XI (XO
-    (XI (XI (XI (XI (XI
-    XH))))))))))))))))))))))))))))))))))))))))))))))))))))))))))
-
-(** val min_bits_required : nat list -> n -> nat **)
-
-let min_bits_required tab v =
-  if N.eqb v N0
-  then O
-  else let s = smear v in
-       let x = N.sub s (N.shiftr s (Npos XH)) in
-       let idx =
-         N.shiftr (N.modulo (N.mul x debruijn) two64) (Npos (XO (XI (XO (XI
-           (XI XH))))))
-       in
-       S (nth (N.to_nat idx) tab O)
-
-(** val write_lim_uint : nat list -> n -> n -> bs -> bs * unit res **)
-
-let write_lim_uint tab v n0 s =
-  write_uint v (min_bits_required tab n0) s
 
 (** val get_bit : nat -> bs -> bool **)
 
@@ -1658,11 +1516,6 @@ let rec read_unary_loop fuel s acc =
 let read_unary s =
   read_unary_loop (S (avail_read s)) s O
 
-(** val read_lim_uint : nat list -> n -> bs -> bs * n res **)
-
-let read_lim_uint tab n0 s =
-  read_uint (min_bits_required tab n0) s
-
 (** val reset_counter : bs -> bs **)
 
 let reset_counter s =
@@ -1701,6 +1554,64 @@ let to_fift l =
            (S O)
        in
        ((nibbles (S (length l)) (app l (true :: (zeros pad)))), true)
+
+(** val strip_tag : n -> bits option **)
+
+let strip_tag d =
+  let b = bits_of (S (S (S (S O)))) d in
+  (match b with
+   | [] -> None
+   | x :: l ->
+     (match l with
+      | [] -> None
+      | y :: l0 ->
+        if y
+        then (match l0 with
+              | [] -> None
+              | z0 :: l1 ->
+                if z0
+                then (match l1 with
+                      | [] -> None
+                      | b0 :: l2 ->
+                        if b0
+                        then (match l2 with
+                              | [] -> Some (x :: (y :: (z0 :: [])))
+                              | _ :: _ -> None)
+                        else (match l2 with
+                              | [] -> Some (x :: (y :: []))
+                              | _ :: _ -> None))
+                else (match l1 with
+                      | [] -> None
+                      | b0 :: l2 ->
+                        if b0
+                        then (match l2 with
+                              | [] -> Some (x :: (y :: (z0 :: [])))
+                              | _ :: _ -> None)
+                        else (match l2 with
+                              | [] -> Some (x :: [])
+                              | _ :: _ -> None)))
+        else (match l0 with
+              | [] -> None
+              | z0 :: l1 ->
+                if z0
+                then (match l1 with
+                      | [] -> None
+                      | b0 :: l2 ->
+                        if b0
+                        then (match l2 with
+                              | [] -> Some (x :: (y :: (z0 :: [])))
+                              | _ :: _ -> None)
+                        else (match l2 with
+                              | [] -> Some (x :: (y :: []))
+                              | _ :: _ -> None))
+                else (match l1 with
+                      | [] -> None
+                      | b0 :: l2 ->
+                        if b0
+                        then (match l2 with
+                              | [] -> Some (x :: (y :: (z0 :: [])))
+                              | _ :: _ -> None)
+                        else None))))
 
 (** val concat_nibbles : n list -> bits **)
 
@@ -1751,9 +1662,9 @@ let to_fift_sx l =
   let (ds, u) = to_fift l in
   SL ((SL (map (fun x -> SN x) ds)) :: ((SB u) :: []))
 
-(** val step : nat list -> bs -> sx -> bs * sx **)
+(** val step : bs -> sx -> bs * sx **)
 
-let step tab s = function
+let step s = function
 | SL l ->
   (match l with
    | [] ->
@@ -2028,8 +1939,10 @@ let step tab s = function
                                                               true, false)),
                                                               EmptyString))))))))
                                                          then let (s', r) =
-                                                                read_lim_uint
-                                                                  tab v s
+                                                                read_uint
+                                                                  (N.to_nat
+                                                                    (N.size v))
+                                                                  s
                                                               in
                                                               (s',
                                                               (out_of
@@ -2209,7 +2122,8 @@ let step tab s = function
                                       (String ((Ascii (true, false, true,
                                       true, false, true, true, false)),
                                       EmptyString))))))))
-                                 then let (s', r) = write_lim_uint tab v w s
+                                 then let (s', r) =
+                                        write_uint v (N.to_nat (N.size w)) s
                                       in
                                       (s', (out_unit r))
                                  else (s,
@@ -2553,15 +2467,15 @@ let step tab s = function
       true, false)), (String ((Ascii (false, false, false, false, true, true,
       true, false)), EmptyString))))))))))))))
 
-(** val run_ops : nat list -> bs -> sx list -> sx list **)
+(** val run_ops : bs -> sx list -> sx list **)
 
-let rec run_ops tab s = function
+let rec run_ops s = function
 | [] -> []
-| o :: t -> let (s', r) = step tab s o in r :: (run_ops tab s' t)
+| o :: t -> let (s', r) = step s o in r :: (run_ops s' t)
 
-(** val run_seq : nat list -> sx -> sx **)
+(** val run_seq : sx -> sx **)
 
-let run_seq tab = function
+let run_seq = function
 | SL l ->
   (match l with
    | [] ->
@@ -2571,7 +2485,7 @@ let run_seq tab = function
        false)), EmptyString))))))
    | s :: ops ->
      (match s with
-      | SN c -> SL (run_ops tab (new_bs (N.to_nat c)) ops)
+      | SN c -> SL (run_ops (new_bs (N.to_nat c)) ops)
       | _ ->
         sx_err (String ((Ascii (true, true, false, false, true, true, true,
           false)), (String ((Ascii (true, false, true, false, false, true,
@@ -2613,17 +2527,16 @@ let rec hex_digits = function
       | None -> None)
    | None -> None)
 
-(** val lookup_suffix : (n * bits) list -> n -> bits option **)
+(** val ref_suffix : n -> bits option **)
 
-let rec lookup_suffix tab c =
-  match tab with
-  | [] -> None
-  | p :: t ->
-    let (k, v) = p in if N.eqb k c then Some v else lookup_suffix t c
+let ref_suffix c =
+  match hex_to_int c with
+  | Some d -> strip_tag d
+  | None -> None
 
-(** val from_fift_chars : (n * bits) list -> n list -> bits option **)
+(** val from_fift_chars : n list -> bits option **)
 
-let from_fift_chars suffix_tab cs =
+let from_fift_chars cs =
   match rev cs with
   | [] ->
     (match hex_digits cs with
@@ -2653,7 +2566,7 @@ let from_fift_chars suffix_tab cs =
                             (match rest with
                              | [] -> None
                              | c :: body ->
-                               (match lookup_suffix suffix_tab c with
+                               (match ref_suffix c with
                                 | Some tail ->
                                   (match hex_digits (rev body) with
                                    | Some ds ->
@@ -2704,11 +2617,11 @@ let to_fift_chars l =
   app (map hex_char ds)
     (if u then (Npos (XI (XI (XI (XI (XI (XO XH))))))) :: [] else [])
 
-(** val run_from_fift : (n * bits) list -> sx -> sx **)
+(** val run_from_fift : sx -> sx **)
 
-let run_from_fift suffix_tab = function
+let run_from_fift = function
 | SBytes cs ->
-  (match from_fift_chars suffix_tab cs with
+  (match from_fift_chars cs with
    | Some l -> SBits l
    | None ->
      SA (String ((Ascii (true, false, true, false, false, true, true,
@@ -2739,10 +2652,10 @@ let run_to_fift = function
     false)), (String ((Ascii (false, false, true, false, true, true, true,
     false)), EmptyString))))))))))))
 
-(** val run_minbits : nat list -> sx -> sx **)
+(** val run_minbits : sx -> sx **)
 
-let run_minbits tab = function
-| SN v -> sx_nat (min_bits_required tab v)
+let run_minbits = function
+| SN v -> SN (N.size v)
 | _ ->
   sx_err (String ((Ascii (true, false, true, true, false, true, true,
     false)), (String ((Ascii (true, false, false, true, false, true, true,
@@ -2765,7 +2678,7 @@ let run name a =
        true, false)), (String ((Ascii (true, false, true, false, false, true,
        true, false)), (String ((Ascii (true, false, false, false, true, true,
        true, false)), EmptyString))))))))))))))
-  then run_seq tab64 a
+  then run_seq a
   else if is (String ((Ascii (true, true, false, false, false, true, true,
             false)), (String ((Ascii (false, false, false, false, true, true,
             false, false)), (String ((Ascii (false, true, true, false, true,
@@ -2780,7 +2693,7 @@ let run name a =
             false)), (String ((Ascii (false, true, true, false, false, true,
             true, false)), (String ((Ascii (false, false, true, false, true,
             true, true, false)), EmptyString))))))))))))))))))))))))
-       then run_from_fift suffix_to_bits a
+       then run_from_fift a
        else if is (String ((Ascii (true, true, false, false, false, true,
                  true, false)), (String ((Ascii (false, false, false, false,
                  true, true, false, false)), (String ((Ascii (false, true,
@@ -2811,7 +2724,7 @@ let run name a =
                       true, true, true, false)), (String ((Ascii (true, true,
                       false, false, true, true, true, false)),
                       EmptyString))))))))))))))))))))))
-                 then run_minbits tab64 a
+                 then run_minbits a
                  else sx_err (String ((Ascii (true, false, true, false, true,
                         true, true, false)), (String ((Ascii (false, true,
                         true, true, false, true, true, false)), (String
